@@ -899,6 +899,26 @@ func (g *schemaGenerator) generateAnyOfType(anyOf []*schemas.Type, scope nameSco
 }
 
 func (g *schemaGenerator) generateAllOfType(allOf []*schemas.Type, scope nameScope) (codegen.Type, error) {
+	// A member that refers to a definition whose generation led here again (a node with
+	// "next": {"allOf": [{"$ref": "#/definitions/Node"}]}) would be merged and generated
+	// forever; like a cyclic anyOf it becomes an empty interface.
+	for _, typ := range allOf {
+		if typ == nil || typ.Ref == "" {
+			continue
+		}
+
+		ic, cleanupCycle, cycleErr := g.detectCycle(typ)
+		if cycleErr != nil {
+			return nil, cycleErr
+		}
+
+		defer cleanupCycle()
+
+		if ic {
+			return codegen.EmptyInterfaceType{}, nil
+		}
+	}
+
 	rAllOf, err := g.resolveRefs(allOf)
 	if err != nil {
 		return nil, err
